@@ -16,7 +16,7 @@
     r = RSkip (outside the property's domain) -> no claim. *)
 From Coq Require Import ZArith List Bool String.
 From V Require Import Base.Int Base.IO Spec.StrftimeDoc Model.Items Gen.Strftime Model.Strftime Model.Format
-  Proofs.C12 Proofs.C12Str Proofs.C12Tok Proofs.C12Fam Proofs.C12View.
+  Proofs.C12 Proofs.C12Str Proofs.C12Tok Proofs.C12Fam Proofs.C12View Proofs.C12All Proofs.C12Judge Proofs.C12Lenient.
 From V Require Import Spec.Gregorian Model.C12 Judge.C12 Proofs.C08Sweeps.
 From V Require Model.DateTime Model.Time.
 Import ListNotations.
@@ -31,6 +31,8 @@ Theorem C12_spec_item_table : forall name e m,
 Proof. exact spec_item_table. Qed.
 Print Assumptions C12_spec_item_table.
 
+(* an isolated ASCII specifier only; superseded by C12_unknown_specifier_error_in_context (any
+   undocumented specifier, anywhere in any format string) *)
 Theorem C12_unknown_specifier_is_error : forall c, 0 <= c < 128 ->
   lookup doc_table [c] = None -> modifier c = None -> ~ In c [35; 58; 46; 51; 54; 57] ->
   strict_items [37; c] = Val [IError].
@@ -121,7 +123,8 @@ Print Assumptions C12_literal_copied.
 (** the documented family: valid UTF-8 in which every '%' starts a documented specifier, optionally
     preceded by a padding modifier ([wf_scan] decides it).  Its item lists agree with the table:
     arbitrary text in between, composites in place, and the [Error] item for a modifier on a
-    non-numeric or composite specifier *)
+    non-numeric or composite specifier.  Superseded by C12_tokenization_all (no side condition
+    other than valid UTF-8). *)
 Theorem C12_tokenization_documented_family : forall fmt,
   documented_family fmt -> tokenization_agrees fmt.
 Proof. exact tokenization_documented_family. Qed.
@@ -176,7 +179,9 @@ Print Assumptions C12_args_view_utc.
     the NaiveDate range (the BEFORE_MIN / AFTER_MAX sentinels of overflowing_naive_local) is
     excluded by the second hypothesis; (2) format strings with an undocumented specifier are
     outside [documented_family] (Error proved for an isolated ASCII specifier only); (3) the
-    `sf.items` / `sf.fmtl` ops are covered by the item-level theorems above, not at judge level. *)
+    `sf.items` / `sf.fmtl` ops are covered by the item-level theorems above, not at judge level.
+    All three restrictions are lifted below: (1) by C12_holds_fmt, (2) by C12_holds_fmt_any
+    (every format string), (3) by C12_holds_fmtl_any and C12_holds_items_any. *)
 Theorem C12_holds_fmt_partial : forall kind v fmt,
   documented_family fmt ->
   (forall sv n, sval_of kind v = Some sv -> sv_dn sv = Some n -> dn_in_range n = true) ->
@@ -188,7 +193,8 @@ Print Assumptions C12_holds_fmt_partial.
 (** ... and without restriction (1): the calendar reading of the two sentinel dates is computed
     on the closed words (C12_sentinel_date_views), so the statement holds for EVERY decodable value
     of the five kinds, including a DateTime<FixedOffset> whose local day is one day outside the
-    NaiveDate range.  Restrictions (2) and (3) remain. *)
+    NaiveDate range.  Restrictions (2) and (3) are lifted by C12_holds_fmt_any /
+    C12_holds_fmtl_any / C12_holds_items_any at the end of this file. *)
 Theorem C12_sentinel_date_views :
   date_view Model.Date.D_BEFORE_MIN (DN_MIN - 1) /\ date_view Model.Date.D_AFTER_MAX (DN_MAX + 1).
 Proof. exact (conj date_view_BEFORE_MIN date_view_AFTER_MAX). Qed.
@@ -218,3 +224,138 @@ Example C12_format_example : delayed_display ex_args (sf_new ex_fmt) =
   match doc_format ex_sval ex_fmt with ROk s => fok s | _ => ferr end.
 Proof. exact ex_format. Qed.
 Print Assumptions C12_format_example.
+
+(** * Every format string (closes restrictions (2) and (3) of C12_holds_fmt_partial)
+
+    unknown_specifier: a '%' that starts no row of the documented table — unknown character,
+    multi-byte character, premature end of the string, an incomplete `%.` `%:` `%3` `%#` sequence,
+    with or without a padding modifier — after '%'-free text [pre], followed by anything: the
+    strict item list is the text and then [Error] *)
+Theorem C12_unknown_specifier_error_in_context : forall pre r pad r1,
+  utf8_valid (pre ++ 37 :: r) = true -> ~ In 37 pre ->
+  split_mod r = (pad, r1) -> lookup doc_table r1 = None ->
+  exists items, strict_items (pre ++ 37 :: r) = Val items /\
+    norm_items items = norm_items ((if pre then [] else [Literal pre]) ++ [IError]).
+Proof. exact unknown_specifier_error_in_context. Qed.
+Print Assumptions C12_unknown_specifier_error_in_context.
+Example C12_unknown_inhabited : utf8_valid ([97; 98] ++ 37 :: [45; 81; 33]) = true /\ ~ In 37 [97; 98] /\
+  split_mod [45; 81; 33] = (Some DNone, [81; 33]) /\ lookup doc_table [81; 33] = None.
+Proof. exact ex_unknown. Qed.
+Print Assumptions C12_unknown_inhabited.
+
+(** tokenization_all: for EVERY valid UTF-8 format string the items `StrftimeItems::new` yields up
+    to the first [Error] are the documented decomposition (up to the Literal/Space distinction and
+    the chunking of text): text covers the text, every documented specifier its table row,
+    composites their expansion, every undocumented specifier [Error] *)
+Theorem C12_tokenization_all : forall fmt, utf8_valid fmt = true -> tokenization_agrees fmt.
+Proof. exact tokenization_all. Qed.
+Print Assumptions C12_tokenization_all.
+
+(** format_spec without side condition: ANY value x ANY format string renders as documented, or
+    fails exactly where the documentation says (missing field, undocumented specifier, modifier
+    on a non-numeric specifier) *)
+Theorem C12_format_spec_all : forall a sv fmt, args_view a sv -> utf8_valid fmt = true ->
+  claim (doc_format sv fmt) (delayed_display a (sf_new fmt)).
+Proof. exact format_spec_all. Qed.
+Print Assumptions C12_format_spec_all.
+
+(** strict iteration is total: on every valid UTF-8 string the iterator ends without a trap within
+    the bound of the `sf.items` op, and the items up to the first [Error] are the documented ones *)
+Theorem C12_strict_items_total : forall fmt, utf8_valid fmt = true ->
+  exists l, sf_take (S (sf_bound fmt)) (sf_new fmt) [] = Val (Some l) /\
+            norm_items (until_first_err l) = norm_items (doc_items fmt).
+Proof. exact strict_items_total. Qed.
+Print Assumptions C12_strict_items_total.
+
+(** lenient mode (`StrftimeItems::new_lenient`, `parse_to_owned` of it) on a format string without
+    error by the table: the same items, hence the same text, as strict mode *)
+Theorem C12_tokenization_lenient : forall fmt, utf8_valid fmt = true -> has_err (tokens fmt) = false ->
+  exists items, sf_until_err (S (sf_bound fmt)) (sf_new_lenient fmt) [] = Val items /\
+                norm_items items = norm_items (doc_items fmt).
+Proof. exact tokenization_lenient. Qed.
+Print Assumptions C12_tokenization_lenient.
+Theorem C12_lenient_display_eq_strict : forall a fmt, utf8_valid fmt = true -> has_err (tokens fmt) = false ->
+  delayed_display a (sf_new_lenient fmt) = delayed_display a (sf_new fmt).
+Proof. exact lenient_display_eq_strict. Qed.
+Print Assumptions C12_lenient_display_eq_strict.
+Theorem C12_format_spec_lenient : forall a sv fmt, args_view a sv -> utf8_valid fmt = true ->
+  has_err (tokens fmt) = false ->
+  claim (doc_format sv fmt) (delayed_display a (sf_new_lenient fmt)).
+Proof. exact format_spec_lenient. Qed.
+Print Assumptions C12_format_spec_lenient.
+Example C12_noerr_inhabited : utf8_valid ex_fmt = true /\ has_err (tokens ex_fmt) = false.
+Proof. exact ex_fmt_noerr. Qed.
+Print Assumptions C12_noerr_inhabited.
+Example C12_err_inhabited : utf8_valid ex_fmt_bad = true /\ has_err (tokens ex_fmt_bad) = true.
+Proof. exact ex_fmt_bad_valid. Qed.
+Print Assumptions C12_err_inhabited.
+
+(** C12 holds of the model, over cases, for ALL ops and ALL arguments: the judge (the executable
+    statement of the property) accepts the model's output of
+    - `sf.fmt` for every kind, every value and every format string (supersedes C12_holds_fmt);
+    - `sf.fmtl` likewise (the judge claims the documented text on format strings without error and
+      makes no claim on the lenient recovery from an invalid specifier);
+    - `sf.items` for every format string, strict and lenient: the canonical item list up to the
+      first [Error] is the documented one, and draining the iterator neither traps nor exceeds the
+      bound of the op.
+    Arguments that do not decode (or a format that is not UTF-8) are `err:BADARGS` on the model
+    side and outside the judge's domain. *)
+Theorem C12_holds_fmt_any : forall kind v fmt,
+  accepted (judge (bytes_of_string "sf.fmt") [VInt kind; v; VStr fmt]
+                  (run (bytes_of_string "sf.fmt") [VInt kind; v; VStr fmt])).
+Proof. exact holds_fmt_any. Qed.
+Print Assumptions C12_holds_fmt_any.
+Theorem C12_holds_fmtl_any : forall kind v fmt,
+  accepted (judge (bytes_of_string "sf.fmtl") [VInt kind; v; VStr fmt]
+                  (run (bytes_of_string "sf.fmtl") [VInt kind; v; VStr fmt])).
+Proof. exact holds_fmtl_any. Qed.
+Print Assumptions C12_holds_fmtl_any.
+Theorem C12_holds_items_any : forall fmt l,
+  accepted (judge (bytes_of_string "sf.items") [VStr fmt; VInt l]
+                  (run (bytes_of_string "sf.items") [VStr fmt; VInt l])).
+Proof. exact holds_items_any. Qed.
+Print Assumptions C12_holds_items_any.
+
+(** * The lenient iterator on every string, and the internal items
+
+    lenient_never_errors: `StrftimeItems::new_lenient` on EVERY valid UTF-8 string (of a length a
+    Rust string can have) ends within the bound without a trap, and none of its items is
+    [Item::Error]: every invalid specifier comes out as a [Literal] (trap-freedom: C15's slice-safety
+    invariant, Proofs/C15Strftime.v) *)
+Theorem C12_lenient_never_errors : forall s, utf8_valid s = true -> blen s <= u64_max ->
+  exists l, sf_take (S (sf_bound s)) (sf_new_lenient s) [] = Val (Some l) /\ forallb not_err l = true.
+Proof. exact lenient_never_errors. Qed.
+Print Assumptions C12_lenient_never_errors.
+Example C12_lenient_example :
+  sf_take 100 (sf_new_lenient [37; 81]) [] = Val (Some [Literal [37]; Literal [81]]) /\
+  sf_take 100 (sf_new [37; 81]) [] = Val (Some [IError]).
+Proof. exact (conj lenient_example strict_errors_example). Qed.
+Print Assumptions C12_lenient_example.
+
+(** "lenient mode = strict mode with each invalid specifier as ONE literal" does NOT hold of the
+    code: after a padding modifier on a composite specifier ("%-D") the composite's queued items
+    are still yielded — after the literal "%-D" in lenient mode (2001-07-08 prints "%-D/08/01"),
+    after [Error] in strict mode (harmless there: the formatter stops at [Error]).  Reproduced on
+    the real crate through `sf.items` / `sf.fmtl`. *)
+Theorem C12_lenient_recovery_one_literal_refuted :
+  sf_take 100 (sf_new_lenient [37; 45; 68]) [] =
+    Val (Some [Literal [37; 45; 68]; Literal [47]; num0 N_Day; Literal [47]; num0 N_YearMod100]) /\
+  sf_take 100 (sf_new [37; 45; 68]) [] =
+    Val (Some [IError; Literal [47]; num0 N_Day; Literal [47]; num0 N_YearMod100]).
+Proof. exact lenient_pad_on_composite_leaks. Qed.
+Print Assumptions C12_lenient_recovery_one_literal_refuted.
+
+(** the internal items: `%3f` `%6f` `%9f` (Nanosecond3NoDot/6/9) render the documented fraction
+    digits; the parsing-only TimezoneOffsetPermissive behind `%#z` cannot be rendered: formatting
+    fails for every value (the documentation table makes no claim for it) *)
+Theorem C12_render_internal_nodot : forall a sv k, args_view a sv -> k = 3 \/ k = 6 \/ k = 9 ->
+  claim (render_fix sv (TFrac k false))
+        (format_fixed a (F_Internal (if k =? 3 then I_Nanosecond3NoDot else if k =? 6 then I_Nanosecond6NoDot
+                                     else I_Nanosecond9NoDot))).
+Proof. exact render_nodot. Qed.
+Print Assumptions C12_render_internal_nodot.
+Theorem C12_permissive_offset_never_renders : forall a,
+  format_fixed a (F_Internal I_TimezoneOffsetPermissive) = ferr /\
+  delayed_display a (sf_new [37; 35; 122]) = ferr.
+Proof. exact (fun a => conj (permissive_offset_fails a) (permissive_format_fails a)). Qed.
+Print Assumptions C12_permissive_offset_never_renders.
